@@ -842,3 +842,36 @@ func TravInteresting(r *Rng, tc *TravCase) bool {
 	}
 	return true
 }
+
+// ---- selector declaration helpers (the data-model encoding)
+func SelMatcher() *Val            { return m1(".", Map()) }
+func SelSubset(from, to int64) *Val {
+	return m1(".", m1("subset", Map(Entry{"[", Int(from)}, Entry{"]", Int(to)})))
+}
+func SelAll(next *Val) *Val       { return m1("a", m1(">", next)) }
+func SelEdge() *Val               { return m1("@", Map()) }
+func SelIndex(i int64, next *Val) *Val {
+	return m1("i", Map(Entry{"i", Int(i)}, Entry{">", next}))
+}
+func SelRange(a, b int64, next *Val) *Val {
+	return m1("r", Map(Entry{"^", Int(a)}, Entry{"$", Int(b)}, Entry{">", next}))
+}
+func SelUnion(ms ...*Val) *Val { return m1("|", &Val{Kind: KList, L: append([]*Val{}, ms...)}) }
+func SelFields(es ...Entry) *Val {
+	return m1("f", m1("f>", &Val{Kind: KMap, M: append([]Entry{}, es...)}))
+}
+
+// SelRec: depth < -1000 means limit "none"
+func SelRec(depth int64, seq *Val, stop string) *Val {
+	lim := m1("depth", Int(depth))
+	if depth < -1000 {
+		lim = m1("none", Map())
+	}
+	body := Map(Entry{"l", lim}, Entry{":>", seq})
+	if stop != "" {
+		body.M = append(body.M, Entry{"!", m1("/", Link(stop))})
+	}
+	return m1("R", body)
+}
+
+const SelNoLimit = int64(-1 << 40)
